@@ -36,6 +36,7 @@ type liWorld struct {
 	lines     []string
 	survivors []string
 	survNums  []uint64
+	override  []interface{} // events of the next `blk` decoded from REAL contract logs (scenario evmger)
 }
 
 func (w *liWorld) close() {
@@ -308,7 +309,9 @@ func (w *liWorld) exec(r *Run, line string) string {
 	case "blk":
 		bn := bigOf(ws[1]).Uint64()
 		blk := sync.Block{Num: bn, Hash: common.BigToHash(new(big.Int).SetUint64(bn*104729 + 7))}
-		if evs, ok := liEventsViaLogs(ws[2:]); ok {
+		if w.override != nil {
+			blk.Events, w.override = w.override, nil
+		} else if evs, ok := liEventsViaLogs(ws[2:]); ok {
 			// the block's events as the syncer gets them: ABI-encoded logs through the downloader's own log handlers
 			blk.Events = evs
 			r.Count("branch:events-decoded-from-logs")
